@@ -23,3 +23,31 @@ package tuf
 //@   # A-keyid: a Sigstore key's KeyID is "<identity>::<issuer>" (true for keys made by gittuf; assumed for metadata read from disk)
 //@   ensures forall j :: 0 <= j && j < len(ks) && ks[j].KeyType == "sigstore-oidc" ==> ks[j].KeyID == ks[j].KeyVal.Identity + "::" + ks[j].KeyVal.Issuer
 //@   ensures forall kid string :: pHasKey(self, kid) ==> (exists j :: 0 <= j && j < len(ks) && ks[j].KeyID == kid)
+
+//@ # global rules are immutable values too: what they match and their threshold are functions of the rule
+//@ spec grMatches(r GlobalRule, path string) bool
+//@ spec grThreshold(r GlobalRule) int
+//@ func ext:(internal/tuf.GlobalRuleThreshold).Matches -> (m)
+//@   trusted
+//@   pure
+//@   ensures m == grMatches(self, path)
+//@ func ext:(internal/tuf.GlobalRuleThreshold).GetThreshold -> (n)
+//@   trusted
+//@   pure
+//@   ensures n == grThreshold(self)
+//@ func ext:(internal/tuf.GlobalRuleBlockForcePushes).Matches -> (m)
+//@   trusted
+//@   pure
+//@   ensures m == grMatches(self, path)
+//@ func ext:(internal/tuf.GlobalRuleThreshold).GetName -> (n)
+//@   trusted
+//@   pure
+//@ func ext:(internal/tuf.GlobalRuleBlockForcePushes).GetName -> (n)
+//@   trusted
+//@   pure
+//@ func ext:(internal/tuf.GlobalRule).GetName -> (n)
+//@   trusted
+//@   pure
+//@ func ext:(internal/tuf.GitHubApp).IsTrusted -> (b)
+//@   trusted
+//@   pure
